@@ -187,7 +187,30 @@ def r13_4(ctx) -> None:
         ctx.check(ok, "R13.4", fn, fn.node, f"{g} :: auto_kid", "generate_key(auto_kid=True) does not assign the thumbprint kid", "if auto_kid: key.ensure_kid()", construct=f"auto_kid in {g}")
 
 
+def r13_8(ctx) -> None:
+    """`auto_kid=True` gives every generated key its thumbprint kid: in each generate_key, with the auto_kid test taken true, no
+    path completes without ensure_kid()"""
+    eng = ctx.eng
+    P = eng.prog
+    bk = P.cls("rfc7517.models:BaseKey")
+    ek = bk.methods["ensure_kid"]
+    gens = [f for f in eng.prog.implementations(bk, "generate_key") if not f.is_abstract and f.cls is not bk]
+    ctx.count("R13.8", len(gens), 4, "generate_key implementations")
+    for G in gens:
+        if "auto_kid" not in G.params:
+            ctx.fail("R13.8", G, G.node, "generate_key lost its auto_kid parameter", construct=f"auto_kid of {G.short}")
+            continue
+        cfg = cfg_of(G)
+        tests = [t for t in cfg.nodes if t.kind == "test" and norm(t.ast) == "auto_kid"]
+        calls = [cfg.node_of(s.node) for s in eng.cg.calls_in(G) if ek in s.callees]
+        calls = [c for c in calls if c is not None]
+        ok = bool(tests) and bool(calls) and cfg.must_pass(cfg.entry, cfg.exit, calls, edge_filter=lambda a, b, lab, _t=tests: not (a in _t and lab == "false"))
+        ctx.check(ok, "R13.8", G, G.node, G.short, "with auto_kid=True a generated key can be returned without ensure_kid() (e.g. an early return for public keys)",
+                  "if auto_kid: key.ensure_kid() on every path", construct=f"auto_kid honoured in {G.short}")
+
+
 def run(ctx) -> None:
+    ctx.guard(r13_8)
     ctx.guard(r13_1)
     ctx.guard(r13_2)
     ctx.guard(fixed_width_ec, "R13.3")
